@@ -77,6 +77,7 @@ atexit.register(LEAN.close)
 
 class C14(Prop):
     id = "C14"
+    thorough_rounds = 6   # thorough tier: this many independently seeded rounds of the random generators (duplicates dropped)
     modules = ["H3.Props.C14"]
     engines = ["wbuf", "out"]
     design_ref = "DESIGN.md section 7, C14; section 9, R-14"
